@@ -100,11 +100,13 @@ Walk(f, nf, ns) ==
        \E d \in (IF n = 0 THEN {tab[f].dir} ELSE BOOLEAN) :
          LET h == NewH(live) IN
          IF nf = f THEN
-           \* in place: the fid moves; the old entry is released (clunk)
+           \* in place: the fid moves; the old entry is released (clunk).  A clunk that
+           \* reports an error is still a release: the fid moves all the same.
+           \E co \in {"ok"} \cup FailSet :
            /\ tab' = [tab EXCEPT ![f] = [@ EXCEPT !.h = h, !.dir = d]]
            /\ live' = (live \cup {h}) \ {src}
            /\ UNCHANGED stopped
-           /\ last' = Rec("walk", a, <<FS("walk", src, "ok", h, n, d), FS("clunk", src, "ok", 0, 0, FALSE)>>, "", n)
+           /\ last' = Rec("walk", a, <<FS("walk", src, "ok", h, n, d), FS("clunk", src, co, 0, 0, FALSE)>>, "", n)
          ELSE
            /\ tab' = [tab EXCEPT ![nf] = [h |-> h, dir |-> d, open |-> FALSE, mode |-> 0]]
            /\ live' = live \cup {h}
